@@ -34,6 +34,10 @@ TEST_SRC = ("from vsim import simrt as _r\n_r.hook('file.import', __file__)\nimp
             "class T(unittest.TestCase):\n    def test(self):\n        pass\n")
 INIT_SRC = "from vsim import simrt as _r\n_r.hook('file.import', __file__)\n"
 PLAIN_SRC = "from vsim import simrt as _r\n_r.hook('file.import', __file__)\n"
+# a package whose __path__ is extended by a directory outside every --path ("stitched" in):
+# its modules are only found through --package-path DIR stitched
+STITCH_SRC = ("import os as _os\n__path__.append(_os.path.join(_os.path.dirname(_os.path.dirname("
+              "_os.path.dirname(_os.path.abspath(__file__)))), 'knit'))\n")
 
 
 def gen_dir(rng, name, depth, budget, uniq):
@@ -68,7 +72,7 @@ def gen(seed):
     # artefacts of the generated world, not discovery behaviour: draw again
     for attempt in range(30):
         spec = gen1(seed, attempt)
-        want, modname, never = model(spec['tree'], spec['opt'], spec.get('ext'))
+        want, modname, never = model(spec['tree'], spec['opt'], spec.get('ext'), spec.get('knit'))
         allf = dict(modname)
         names = list(allf.values())
         clash = len(names) != len(set(names))
@@ -82,6 +86,8 @@ def gen(seed):
         roots = sorted(set(spec['opt']['roots']), key=len, reverse=True)
         for f, mn in allf.items():
             first = mn.split('.')[0]
+            if f.startswith('knit/'):
+                continue
             owner = [r for r in roots if f.startswith(r + '/')][0]
             for r in roots:
                 if r == owner:
@@ -130,9 +136,14 @@ def gen1(seed, attempt):
                 if name2 not in [d['name'] for d in host2['dirs']] and \
                         name2 not in (host2.get('links') or {}):
                     host2.setdefault('links', {})[name2] = 'ext/' + target['name']
+    knit = None
+    if rng.random() < 0.12:
+        knit = gen_dir(rng, 'knit', 2, [8], uniq)
+        knit['files'].pop('__init__.py', None)
+        tree['dirs'].append({'name': 'stitched', 'dirs': [], 'files': {'__init__.py': STITCH_SRC}})
     roots = ['root']
     nested = [rel for rel, node in fssim.walk_tree(tree)
-              if rel != 'root' and all(IDENT(x) and x not in IGNORE_FOLDERS
+              if rel != 'root' and 'stitched' not in rel.split('/') and all(IDENT(x) and x not in IGNORE_FOLDERS
                                        and x not in DEFAULT_IGNORE
                                        for x in rel.split('/')[1:])]
     r = rng.random()
@@ -164,7 +175,8 @@ def gen1(seed, attempt):
         opt['ignore_dir'] = ['skipme'] + ([rng.choice(['ftests', 'sub1'])]
                                           if rng.random() < 0.3 else [])
     if rng.random() < 0.15 and roots == ['root'] and not opt.get('root_kinds'):
-        cands = [t['name'] for t in tops if '__init__.py' in t['files']]
+        cands = [t['name'] for t in tops if '__init__.py' in t['files']
+                 and t['name'] != 'stitched']
         if cands:
             opt['s'] = [rng.choice(cands)]
     spec = {'property': ID, 'seed': seed, 'tree': tree, 'opt': opt,
@@ -172,10 +184,17 @@ def gen1(seed, attempt):
             'sched': {'prng': seed}}
     if ext is not None:
         spec['ext'] = ext
+    if knit is not None and roots == ['root'] and not opt.get('s'):
+        spec['knit'] = knit
+        if 'm' not in opt and rng.random() < 0.6:
+            opt['m'] = [rng.choice([r'^stitched\.', r'!^stitched', r'stitched\.\w+\.tests$',
+                                    'tests$', '!sub'])]
+    elif knit is not None:
+        tree['dirs'] = [d for d in tree['dirs'] if d['name'] != 'stitched']
     return spec
 
 
-def model(tree, opt, ext=None):
+def model(tree, opt, ext=None, knit=None):
     """(ordered list of test files (relative), {file: module name}, excluded-by-filter files)."""
     tp = re.compile(opt.get('tests_pattern', '^tests$')).search
     fp = re.compile(opt.get('test_file_pattern', '^test')).search
@@ -218,10 +237,17 @@ def model(tree, opt, ext=None):
         walk_roots = ordered
     for r in walk_roots:
         visit(r, nodes[r])
+    if knit is not None:
+        # --package-path knit stitched: searched after the plain paths
+        nodes.update(fssim.walk_tree(knit))
+        visit('knit', knit)
     # module names: relative to the longest root prefix
     prefixes = sorted(set(roots), key=len, reverse=True)
     modname = {}
     for f in found:
+        if f.startswith('knit/'):
+            modname[f] = 'stitched.' + f[len('knit/'):-3].replace('/', '.')
+            continue
         for p in prefixes:
             if f.startswith(p + '/'):
                 modname[f] = f[len(p) + 1:-3].replace('/', '.')
@@ -253,11 +279,15 @@ def run(spec, ctx):
     if spec.get('ext') is not None:
         fssim.materialise(spec['ext'], top, order_rng=rng)
     fssim.materialise(spec['tree'], top, order_rng=rng)
+    if spec.get('knit') is not None:
+        fssim.materialise(spec['knit'], top, order_rng=rng)
     has_links = any(node.get('links') for _, node in fssim.walk_tree(spec['tree']))
     args = []
     kinds = opt.get('root_kinds') or ['path'] * len(opt['roots'])
     for r, kind in zip(opt['roots'], kinds):
         args += ['--' + kind, os.path.join(top, r)]
+    if spec.get('knit') is not None:
+        args += ['--package-path', os.path.join(top, 'knit'), 'stitched']
     if opt.get('package_path_dup') is not None:
         args += ['--package-path',
                  os.path.join(top, opt['roots'][opt['package_path_dup'] % len(opt['roots'])]),
@@ -273,7 +303,7 @@ def run(spec, ctx):
     for d in opt.get('ignore_dir') or []:
         args += ['--ignore_dir', d]
     args += ['--list-tests', '-k']
-    want, modname, never = model(spec['tree'], opt, spec.get('ext'))
+    want, modname, never = model(spec['tree'], opt, spec.get('ext'), spec.get('knit'))
     viols = []
     listings = []
     results = []
